@@ -223,7 +223,7 @@ func (s ServeScript) checkResponse(res *vt.Result, i int, raw json.RawMessage) {
 		return
 	}
 	m, _ := members(raw)
-	k := &jsonChecker{res: res, what: what}
+	k := &jsonChecker{res: res, what: what, metaSuperset: true}
 	tools, prompts, resources := s.counts()
 	listLen := map[string]int{"tools/list": tools, "prompts/list": prompts, "resources/list": resources, "resources/templates/list": s.Templates}
 	if op.Val != nil {
@@ -287,7 +287,7 @@ func (s ServeScript) checkSampling(res *vt.Result, i int, raw json.RawMessage) (
 		return ""
 	}
 	m, _ := members(raw)
-	s.Ops[i].Val.checkJSON(&jsonChecker{res: res, what: what}, m["params"], false)
+	s.Ops[i].Val.checkJSON(&jsonChecker{res: res, what: what, metaSuperset: true}, m["params"], false)
 	return string(m["id"])
 }
 
@@ -351,8 +351,14 @@ func serveNDJSON(s ServeScript, server *mcp.Server, res *vt.Result) {
 	peer.Send(`{"jsonrpc":"2.0","method":"notifications/initialized"}`)
 	synctest.Wait()
 	seen := len(peer.Received())
-	if seen != 1 {
-		res.Failf("harness: handshake produced %d messages", seen)
+	answers := 0 // notifications, which the server is free to send at any time, do not count
+	for _, line := range peer.Received() {
+		if e, err := readEnv(line); !(err == nil && e.HasMethod && !e.HasID) {
+			answers++
+		}
+	}
+	if answers != 1 {
+		res.Failf("harness: handshake produced %d messages", answers)
 		return
 	}
 	// next returns the single new request/response the server wrote since the last call
@@ -481,6 +487,15 @@ func serveHTTP(s ServeScript, server *mcp.Server, res *vt.Result) {
 			if ex != nil {
 				st = ex.Status()
 			}
+			// JSON-RPC batches are not the property's subject and are promised by no exported documentation: a
+			// server that refuses them altogether is accepted - but only if it also refuses the plainest
+			// spelling of the same batch (a refusal that depends on the spelling is a framing defect).
+			if st >= 400 && st < 500 {
+				if ex2 := post("[" + strings.Join(wires, ",") + "]"); ex2 != nil && ex2.Status() == st {
+					res.Class("http-batch-refused")
+					return
+				}
+			}
 			res.Failf("batch of %d calls: POST answered HTTP %d", len(wires), st)
 			return
 		}
@@ -498,7 +513,7 @@ func serveHTTP(s ServeScript, server *mcp.Server, res *vt.Result) {
 					payloads = append(payloads, json.RawMessage(ev.Data))
 				}
 			}
-		case strings.HasPrefix(ct, "application/json") && s.Transport == "stream-json":
+		case strings.HasPrefix(ct, "application/json"): // (also legal without JSONResponse: the spec lets the server choose)
 			if len(wires) == 1 {
 				// a batch of one may be answered by the bare response or by an array of one
 				if err := json.Unmarshal(body, &payloads); err != nil {
@@ -574,8 +589,8 @@ func serveHTTP(s ServeScript, server *mcp.Server, res *vt.Result) {
 			}
 		case strings.HasPrefix(ct, "application/json"):
 			if s.Transport != "stream-json" {
-				res.Failf("op %d: SSE handler answered %s", i, ct)
-				return
+				// legal: JSONResponse is documented to force application/json, nothing forces text/event-stream
+				res.Class("sse-handler-answered-json")
 			}
 			payloads = []string{string(body)}
 		default:
